@@ -221,6 +221,19 @@ CHECKS["C17"] = dict(
     design_ref="DESIGN.md#c17",
 )
 
+CHECKS["C20"] = dict(
+    category="exploration",
+    text="Generated SDL schemas (built-in, extra and a registered custom scalar, enums, nested input objects, lists/non-null wrappers, "
+    "interfaces/unions, queries and mutations with 0-4 arguments) are loaded from SDL and from introspection JSON; for every root field "
+    "documents are drawn under graphql_allow_null x allow_x00 x codec and checked with graphql-core's parser and validator, a walk of "
+    "the document (exactly one operation of the right kind selecting exactly the field, no null literals when disabled, NUL/codec on "
+    "string values, exact parsers for Date/UUID/IPv4/Long/registered scalar); offered operations and selected/total counts are compared "
+    "with the name-filter reference.",
+    note="graphql-core is the reference for syntax and validation.",
+    technique="runtime monitoring: independent validator (graphql-core) + AST walk over generated documents",
+    design_ref="DESIGN.md#c20",
+)
+
 NOT_APPLICABLE = {}
 
 
